@@ -9,7 +9,7 @@
     [isprint], [pweight], [canon], [glob_ok] stand for strconv.IsPrint, strconv.ParseFloat, url.Parse,
     glob.Compile: the theorems hold whatever these libraries answer.
     [expressible] is the decidable domain (Model/RouteCmd.v): name, route and destination are
-    non-empty and free of white space, the path compiles as a glob, the destination parses as a URL,
+    non-empty and free of white space, the path and the lower-cased host compile as globs, the destination parses as a URL,
     the weight literal is accepted by ParseFloat, tags and options contain no double quote, tags no
     comma / newline / outer space, a sole tag is not empty, and strconv.Quote leaves the joined tags and
     options unchanged (true of all printable ASCII except the double quote and the backslash). *)
@@ -139,3 +139,13 @@ Theorem C14_expressible_nonvacuous :
                /\ map fst t = [[]; bs "dc1.example.com"; bs "foo.com:8080"; bs ":5000"].
 Proof. exact expressible_nonvacuous. Qed.
 Print Assumptions C14_expressible_nonvacuous.
+
+(* F-C14-1 once more, since /repo c9fb527: a routing tag whose (lower-cased) host does not compile
+   as a glob is rejected by addRoute and takes the whole text with it. *)
+Theorem C14_bad_host_blocks_all_refuted :
+  expressible all_print pweight_dec idcanon ex_glob env_dc pfx reg_good = true
+  /\ existsb (F_C14_blocking pweight_dec idcanon ex_glob) (ex_intents reg_bad_host) = true
+  /\ new_table pweight_dec idcanon ex_glob (ex_text [reg_good; reg_bad_host]) = Err e_invalid_host
+  /\ exists t, new_table pweight_dec idcanon ex_glob (ex_text [reg_good]) = Ok t /\ length (flat t) = 1%nat.
+Proof. exact bad_host_blocks_all_refuted. Qed.
+Print Assumptions C14_bad_host_blocks_all_refuted.
